@@ -16,7 +16,7 @@ import z3
 
 from pyvc.arrays import Arr, fresh_symbolic
 from pyvc.engine import Contract, FmtKey, LemmaSet, LoopContract
-from pyvc.models import HKResult, NP, SymDict, SymSet
+from pyvc.models import AppendList, HKResult, NP, PrefixEnum, SymDict, SymSet
 from pyvc.values import BoolV, Num, b_and, b_implies, b_not, b_or, ite, lift, mkbool, num_eq, num_max, to_z3, zb
 
 MOD = "persim/bottleneck.py"
@@ -37,9 +37,9 @@ def cost_inf(S, T, M, N, i, j):
     from pyvc.values import cur
     e = cur()
     ci, cj = zb(lift(i) < M), zb(lift(j) < N)
-    a = e.under(z3.And(ci, cj), pp)
-    b = e.under(z3.And(ci, z3.Not(cj)), sdiag)
-    c = e.under(z3.And(z3.Not(ci), cj), tdiag)
+    a = e.under(z3.And(ci, cj), pp, default=0.0)
+    b = e.under(z3.And(ci, z3.Not(cj)), sdiag, default=0.0)
+    c = e.under(z3.And(z3.Not(ci), cj), tdiag, default=0.0)
     return ite(mkbool(ci), ite(mkbool(cj), a, b), ite(mkbool(cj), c, 0.0))
 
 
@@ -115,6 +115,7 @@ def bottleneck_contract(want_matching):
         def make(st2):
             D = Arr((M + N, M + N), lambda idx: cost_inf(S, T, M, N, idx[0], idx[1]), dtype="float")
             st2.g["D"] = D
+            st2.g["M_"], st2.g["N_"] = M, N
             return {"env": {"D": D, "S": S, "T": T, "M": M, "N": N, "return_matching": st2.env.lookup("matching")},
                     "assume": [z3.And(to_z3(M) >= 1, to_z3(N) >= 1)]}
         return {"ob": out, "make": make}
@@ -152,7 +153,8 @@ def bottleneck_contract(want_matching):
         ql = z3.Int(e.uniq("ql"))
         out = [("window_in_range", b_and(lift(lo) >= 0, lift(lo) <= hi, lift(hi) <= K), "S"),
                ("ds_is_window_of_candidates", st.each([(0, st.ds.shape[0])], lambda q: lift(st.ds.get(q)) == ds0_at(g, lo + q), name="w"), "S"),
-               ("smaller_candidates_infeasible", z3.ForAll([ql], z3.Implies(z3.And(ql >= 0, ql < to_z3(lo)), z3.Not(g["feas"](ql))), patterns=[g["feas"](ql)]), "P"),
+               ("candidates_below_bdist_infeasible", z3.ForAll([ql], z3.Implies(z3.And(ql >= 0, ql < to_z3(lo), ql < to_z3(top)), z3.Not(g["feas"](ql))), patterns=[g["feas"](ql)]), "P"),
+               ("candidates_left_of_window_infeasible", z3.ForAll([ql], z3.Implies(z3.And(ql >= 0, ql < to_z3(lo)), z3.Not(g["feas"](ql))), patterns=[g["feas"](ql)]), "P", ("only:C06",)),
                ("bdist_is_feasible_candidate", b_and(BoolV(g["feas"](to_z3(top))), lift(st.bdist) == ds0_at(g, top)), "P")]
         m = st.matching
         if isinstance(m, dict):
@@ -243,12 +245,80 @@ def bottleneck_contract(want_matching):
             out += matching_post(a, res[1], bd)
         return out
 
-    def matching_post(a, rows, bd):
-        return [("matching_rows_checked_by_loop2_invariant", True, "S")]
+    # -- matching extraction (C06) -------------------------------------------------------
+    def rowspec(st_or_g, m, M, N, D, i):
+        j = m.load(FmtKey(i))
+        return [ite(lift(i) < M, i, -1), ite(lift(j) < N, j, -1), D.get(i, j)]
+
+    def get_pe(st):
+        g = st.g
+        if "pe" not in g:
+            m = st.matching
+            M, N = st.M, st.N
+            g["m"] = m
+            g["pe"] = PrefixEnum(st.eng, M + N, lambda i: b_or(lift(i) < M, lift(m.load(FmtKey(i))) < N), "rows")
+        return g["pe"]
+
+    def havoc_matchidx(st):
+        pe = get_pe(st)
+        k = st.env.lookup("__k_loop2")
+        m, M, N, D = st.g["m"], st.M, st.N, st.D
+        return AppendList(pe.count_upto(k), lambda r: rowspec(st, m, M, N, D, pe.source(r)))
+
+    def inv_rows(st):
+        if isinstance(st.matching, dict):
+            return [("matching_available", False, "P", ("only:C06",))]
+        pe = get_pe(st)
+        m, M, N, D = st.g["m"], st.M, st.N, st.D
+        if not isinstance(st.k, int):
+            pe.count_upto(st.k - 1)
+        ml = st.matchidx
+        n_rows = ml.n if not isinstance(ml, list) else len(ml)
+
+        def row_ok(r):
+            got = ml.get(r) if not isinstance(ml, list) else None
+            want = rowspec(st, m, M, N, D, pe.source(r))
+            return b_and(*[lift(x) == y for x, y in zip(got, want)])
+        out = [("row_count_is_number_of_selected_sources", lift(n_rows) == pe.count_upto(st.k), "P", ("only:C06",))]
+        if not isinstance(ml, list):
+            out.append(("rows_are_selected_sources_in_order", st.each([(0, n_rows)], row_ok, name="r"), "P", ("only:C06",)))
+        return out
+
+    def matching_post(a, R, bd):
+        e, g = a.eng, a.g
+        if "pe" not in g:
+            return [("matching_rows_produced", False, "P", ("only:C06",))]
+        pe, m, D = g["pe"], g["m"], g["D"]
+        M, N = g["M_"], g["N_"]
+        out = [("matching_has_three_columns", b_and(lift(R.shape[0]) == pe.total, R.shape[1] == 3), "P", ("only:C06",))]
+        # (a) every point of dgm1 appears in exactly one row
+        i = e.fresh_int("pi", lo=0, hi=M)
+        r = e.fresh_int("pr", lo=0, hi=pe.total)
+        ri = pe.row_of(i)
+        out.append(("each_dgm1_point_has_a_row", b_and(lift(ri) >= 0, lift(ri) < pe.total, lift(R.get(ri, 0)) == i), "P", ("only:C06",)))
+        out.append(("each_dgm1_point_has_one_row_only", b_implies(lift(R.get(r, 0)) == i, lift(r) == ri), "P", ("only:C06",)))
+        # (b) every point of dgm2 appears in exactly one row
+        j = e.fresh_int("pj", lo=0, hi=N)
+        src = m.preimage(j)
+        rj = pe.row_of(src)
+        mj = m.load(FmtKey(src))
+        out.append(("each_dgm2_point_has_a_row", b_and(lift(rj) >= 0, lift(rj) < pe.total, lift(R.get(rj, 1)) == j), "P", ("only:C06",)))
+        out.append(("each_dgm2_point_has_one_row_only", b_implies(lift(R.get(r, 1)) == j, lift(r) == rj), "P", ("only:C06",)))
+        # (c) third entry is the cost of that pairing under the bottleneck cost rule (D is the cost matrix, cut B),
+        #     never above the reported distance
+        sr = pe.source(r)
+        cost = D.get(sr, m.load(FmtKey(sr)))
+        out.append(("row_cost_is_cost_matrix_entry_of_the_pair", lift(R.get(r, 2)) == cost, "P", ("only:C06",)))
+        out.append(("row_costs_do_not_exceed_distance", lift(R.get(r, 2)) <= bd, "P", ("only:C06",)))
+        out.append(("row_indices_in_range_or_minus_one",
+                    b_and(b_or(lift(R.get(r, 0)) == -1, b_and(lift(R.get(r, 0)) >= 0, lift(R.get(r, 0)) < M)),
+                          b_or(lift(R.get(r, 1)) == -1, b_and(lift(R.get(r, 1)) >= 0, lift(R.get(r, 1)) < N))), "P", ("only:C06",)))
+        return out
 
     loops = {0: LoopContract("while len(ds)", inv_search, variant=lambda st: st.ds.shape[0],
                              havoc={"ds": havoc_ds, "bdist": havoc_bdist, "matching": havoc_matching}, cls="S"),
-             1: LoopContract("for i in range(D.shape[0])", inv_graph, havoc={"graph": havoc_graph}, cls="S")}
+             1: LoopContract("for i in range(D.shape[0])", inv_graph, havoc={"graph": havoc_graph}, cls="S"),
+             2: LoopContract("for i in range(M + N)", inv_rows, havoc={"matchidx": havoc_matchidx}, cls="P")}
     return Contract(MOD, "bottleneck", make_args, requires=input_requires, ensures=ensures, definedness="P",
                     loops=loops, variant="matching=%s" % want_matching,
                     cuts=[("Sb, Sd = S[:, 0], S[:, 1]", cut_filter), ("ds = np.sort(np.unique(D.flatten()))", cut_matrix)],
@@ -292,5 +362,5 @@ def hk_hook(e, graph):
 
 
 def all_contracts(tier):
-    cs = [bottleneck_contract(False)]
+    cs = [bottleneck_contract(False), bottleneck_contract(True)]
     return cs, {}
